@@ -28,6 +28,13 @@ Property clause → theorem
 * "… and is fully held in custody"                                                  → `C11.bidvalue_in_custody`
                                                                                       (+ `C11.market_total_covered`)
 * the unrepaired `WithdrawLimitAuctionBid` (no guard, defect D5) violates the clause → `C11.limit_withdraw_le_own_deposit_counterexample`
+* the same three limit-bid clauses ACROSS AUTO-FILLS by a Dutch auction (joint model `Model/LimitFill.lean`: book + auction +
+  module account; every history of deposit / withdraw / cancel / market bid / begin-block, any number of bidders per premium):
+    "recorded total = sum of deposits"           → `C11.fill_bidvalue_eq_sum_deposits_partial` (`= Σ + exact`; the clause itself is
+                                                    false after an exact fill: `C11.fill_bidvalue_exact_counterexample`, D36)
+    "fully held in custody"                      → `C11.fill_bidvalue_in_custody` (exact ledger with every remainder named),
+                                                    `C11.fill_deposits_covered`; `C11.fill_overcharge_counterexample` (D24)
+    "at most their own outstanding deposit"      → `C11.fill_withdraw_le_own_deposit`, `C11.fill_touches_only_the_bucket`
 
 Quantification: every finite list of ops — `start` (activator), `bid` / `dbid` (user messages with arbitrary sender,
 auction id, denomination, amount), `tick` (any block time), `settle` (the block hook looking at any auction; it closes
@@ -639,6 +646,23 @@ theorem fill_overcharge_counterexample :
       [.deposit 1 1 2000000, .tick false 2100 1000000 true 1000000 true]
     s.d.auc = none ∧ s.deps = [((1, 1), 880000)] ∧ s.bv = 880000 ∧ s.d.paid = 990000 ∧ s.over = 130000 ∧
       s.d.bank.get .auction .debt = 880000 + 130000 := by decide
+
+/-- non-vacuity of the `fill_…` theorems: the witness environment is well-formed, the record the activator wrote is a `Start`, the
+operations are well-formed, and in the run "b1 deposits 3 000 000 at premium 9, b2 600 000 at premium 20, block at +2950 s" the fill
+(a) leaves b2's record alone (premium 20 ≠ bucket 9), (b) leaves b1 a record of 1 880 000 from which b1 then withdraws 880 000 — accepted,
+880 001 more than the rest — refused, and (c) the hypotheses of `fill_deposits_covered` hold (no shortfall, no shutdown, `over = 0`) -/
+example :
+    WfJEnv fEnv ∧ C10.Start fEnv.e (C10.wAuc 1680000000000000000000000 1400000000000000000000000) ∧
+    (∀ op ∈ [LimitFill.Op.deposit 1 9 3000000, .deposit 2 20 600000, .tick false 2950 1400000 true 1000000 true, .withdraw 1 9 880000], WfOpJ op) ∧
+    (let s := LimitFill.run fEnv fInit [.deposit 1 9 3000000, .deposit 2 20 600000, .tick false 2950 1400000 true 1000000 true]
+     s.deps = [((9, 1), 1880000), ((20, 2), 600000)] ∧ s.bv = 2480000 ∧ s.d.auc = none ∧ s.d.short = 0 ∧ s.d.esmOut = 0 ∧ s.over = 0 ∧
+     s.d.bank.get .auction .debt = 2480000 ∧
+     (LimitFill.stepE fEnv s (.withdraw 1 9 880000)).toBool = true ∧ (LimitFill.stepE fEnv s (.withdraw 1 9 1880001)).toBool = false) := by
+  refine ⟨⟨⟨by decide, by decide, by decide, by decide, by decide, by decide⟩, by decide⟩,
+    ⟨rfl, rfl, rfl, by decide, by decide, by decide, by decide, by decide, rfl⟩, ?_, by decide⟩
+  intro op hop
+  simp only [List.mem_cons, List.mem_nil_iff, or_false] at hop
+  rcases hop with h | h | h | h <;> subst h <;> simp [WfOpJ]
 
 end Fill
 
